@@ -597,3 +597,30 @@ def d7(cx: Cx, ob: Ob) -> None:
     if n == 0:
         ob.note("no skip path in the URI loop")
         ob.site(f"{fn.where} {fn.qualname}", "no skip paths")
+
+
+@obligation("C19-X30", "expansion path (shared with C02-D1/D2/D5/D6): _split cuts at the first separator, parse_curie splits the unmodified CURIE with self.delimiter, the identifier flows untouched into prefix_map[prefix] + identifier and expand / expand_pair funnel into it - 'compresses under the result and expands back to itself' and 'URIs already recognised by a supplied converter' (converter.is_uri) are answered by these query functions", floor=6)
+def x30(cx: Cx, ob: Ob) -> None:
+    from .c02 import check_expand_reference, check_expand_wrappers, check_parse_curie_delimiter, check_parse_curie_flow, check_split
+
+    check_split(cx, ob)
+    check_parse_curie_delimiter(cx, ob)
+    check_parse_curie_flow(cx, ob)
+    check_expand_reference(cx, ob)
+    check_expand_wrappers(cx, ob)
+
+
+@obligation("C19-X31", "compression path (shared with C01-D2/D3/D4): parse_uri asks the trie for the longest stored prefix of the unmodified URI and returns the rest, compress joins that with self.delimiter and fails only when nothing matched, is_uri is a None-test of it - 'compresses under the result and expands back to itself' and 'URIs already recognised by a supplied converter' (converter.is_uri) are answered by these query functions", floor=6)
+def x31(cx: Cx, ob: Ob) -> None:
+    from .c01 import check_parse_uri_lookup, check_remainder, curie_join_check, format_curie_check, is_parse_uri_of, is_uri_check
+
+    check_parse_uri_lookup(cx, ob)
+    check_remainder(cx, ob)
+    # the round-trip clause speaks of URIs with an alphanumeric (non-empty) identifier; a compress that refuses the
+    # bare URI prefix matters here only if the recognition test of the supplied converter is answered by compress
+    from ..terms import subterms as _sub, op as _op
+    isu = cx.summary(cx.fn("curies.api.Converter.is_uri", ob.id), ob.id)
+    via_compress = any(_op(y) == "call" and _op(y[1]) == "attr" and y[1][2] in ("compress", "compress_strict") for r_, _ in isu.returns() for y in _sub(r_))
+    curie_join_check(cx, ob, "compress", is_parse_uri_of("uri"), "self.parse_uri(uri, ...)", nonempty_identifier_only=not via_compress)
+    format_curie_check(cx, ob)
+    is_uri_check(cx, ob)
